@@ -5,6 +5,7 @@ the shortcut forwards the clustering radii (translated from the AST of cluster.p
 -/
 import MatidModel.ClusterCache
 import MatidGen.ClusterRule
+import MatidGen.SbcRule
 
 namespace Matid.Props.C13
 open Matid.ClusterCache
@@ -81,5 +82,12 @@ theorem stale_cache_witness :
 /-- the source as it is now invalidates on assignment and forwards the clustering radii -/
 theorem source_invalidates : MatidGen.ClusterRule.invalidatesOnSet = true := by decide
 theorem source_forwards_radii : MatidGen.ClusterRule.forwardsRadii = true := by decide
+
+/-- every `Cluster(...)` construction in sbc.py (the search loop AND the merge step) passes the structure, the distances, the
+clustering radii and the bond threshold on — a cluster created without them would evaluate its shortcut with defaults -/
+theorem constructors_forward_radii :
+    MatidGen.SbcRule.ctorKeywords ≠ [] ∧
+    MatidGen.SbcRule.ctorKeywords.all (fun k => k.contains "radii" && k.contains "bond_threshold" && k.contains "distances"
+      && k.contains "system") = true := by decide
 
 end Matid.Props.C13
